@@ -10,6 +10,7 @@ import Glb.Driver.Text
 import Glb.Driver.Relay
 import Glb.Driver.Progress
 import Glb.Driver.Files
+import Glb.Driver.Json
 import Glb.Driver.Daemon
 
 open Glb.Driver
@@ -27,4 +28,7 @@ def main (args : List String) : IO UInt32 := do
   | ["daemon"] => loop stdin stdout () Daemon.step; return 0
   | ["progress"] => loop stdin stdout () Progress.step; return 0
   | ["files"] => loop stdin stdout () Files.step; return 0
+  | ["config"] => loop stdin stdout ({} : Config.CfgSt) Config.cfgStep; return 0
+  | ["json"] => loop stdin stdout () Json.step; return 0
+  | ["utf8"] => loop stdin stdout () Json.step; return 0
   | _ => IO.eprintln "usage: driver <stream>"; return 2
